@@ -7,7 +7,8 @@
 (*             distinct outcomes)                                           *)
 (*   Keys      NewLocalEncryptionHandler under master keys of given lengths *)
 (*   Publish / Subscribe / Pause / Resume / SetEnv / Restart / Tamper /     *)
-(*   CreateProbe: a step on a running server with the projected state after *)
+(*   CreateProbe / LeaderChange: a step on a running cluster (one or two    *)
+(*             servers) with the projected state after                      *)
 (*             it (raw partition logs read back and decoded independently)  *)
 (* FAIL "P": the property is violated on real behaviour; FAIL "I": the real *)
 (* code differs from the transcription (drift); FAIL "C": the harness did   *)
@@ -60,7 +61,7 @@ JudgeKeys(e) ==
 
 \* ---- running server
 BindSrv(e) ==
-  /\ up' = e.st.up /\ env' = e.st.env /\ hk' = e.st.hk /\ paused' = e.st.paused /\ log' = e.st.log
+  /\ up' = e.st.up /\ env' = e.st.env /\ lead' = e.st.lead /\ hk' = e.st.hk /\ paused' = e.st.paused /\ log' = e.st.log
 
 ToSet(s) == {s[i] : i \in 1..Len(s)}
 
@@ -73,9 +74,10 @@ TraceInit ==
   LET e == Trace[1] IN
   /\ l = 2 /\ obs = [a |-> "Open"]
   /\ IF "st" \in DOMAIN e
-     THEN up = e.st.up /\ env = e.st.env /\ hk = e.st.hk /\ paused = e.st.paused /\ log = e.st.log
-     ELSE /\ up = TRUE /\ env = "k1" /\ hk = [s \in Streams |-> IF s = "enc" THEN "k1" ELSE "none"]
-          /\ paused = [s \in Streams |-> FALSE] /\ log = [s \in Streams |-> <<>>]
+     THEN up = e.st.up /\ env = e.st.env /\ lead = e.st.lead /\ hk = e.st.hk /\ paused = e.st.paused /\ log = e.st.log
+     ELSE /\ up = TRUE /\ env = "k1" /\ lead = [s \in Streams |-> CHOOSE r \in Replicas : TRUE]
+          /\ hk = [r \in Replicas |-> [s \in Streams |-> IF s = "enc" THEN "k1" ELSE "none"]]
+          /\ paused = [s \in Streams |-> FALSE] /\ log = [r \in Replicas |-> [s \in Streams |-> <<>>]]
 
 TraceNext ==
   /\ Trace[l].a # "End"
@@ -93,14 +95,14 @@ TraceNext ==
        [] e.a = "Subscribe" ->
             /\ BindSrv(e) /\ obs' = [a |-> "Subscribe", got |-> e.obs.got, end |-> e.obs.end]
             /\ Always(e)
-            /\ Chk(up' => P_Subscribe(e.args.s, e.args.from, e.args.rev), "P", e, "C17_Subscribe", 0)
-            /\ Chk(DoSubscribe(e.args.s, e.args.from, e.args.rev), "I", e, "Subscribe", 0)
+            /\ Chk(up' => P_Subscribe(e.args.s, e.args.from, e.args.rev, e.args.at), "P", e, "C17_Subscribe", 0)
+            /\ Chk(DoSubscribe(e.args.s, e.args.from, e.args.rev, e.args.at), "I", e, "Subscribe", 0)
        [] e.a = "Tamper" ->
             /\ BindSrv(e) /\ obs' = [a |-> "Tamper"]
             /\ Always(e)
-            /\ Chk(up' => P_Tamper(e.args.j), "P", e, "C17_Quiet", 0)
-            /\ Chk(DoTamper(e.args.j), "I", e, "Tamper", 0)
-       [] e.a \in {"Pause", "Resume", "SetEnv", "Restart", "CreateProbe"} ->
+            /\ Chk(up' => P_Tamper, "P", e, "C17_Quiet", 0)
+            /\ Chk(DoTamper(e.args.r, e.args.j), "I", e, "Tamper", 0)
+       [] e.a \in {"Pause", "Resume", "SetEnv", "Restart", "CreateProbe", "LeaderChange"} ->
             /\ BindSrv(e)
             /\ obs' = (IF e.a = "CreateProbe" THEN [a |-> e.a, ok |-> e.obs.ok] ELSE [a |-> e.a])
             /\ Always(e)
@@ -109,6 +111,7 @@ TraceNext ==
                      [] e.a = "Resume" -> DoResume(e.args.s)
                      [] e.a = "SetEnv" -> DoSetEnv(e.args.k)
                      [] e.a = "Restart" -> DoRestart
+                     [] e.a = "LeaderChange" -> DoLeaderChange(e.args.s)
                      [] OTHER -> DoCreateProbe, "I", e, e.a, 0)
        [] OTHER -> Fail("C", e, "unknown-line", 0) /\ UNCHANGED vars
 
